@@ -165,13 +165,18 @@ fn exec_line(out: &mut impl Write, line: &str, cur: &mut Option<Built>) -> Resul
             zones::zone_line(out, &b);
             *cur = Some(b);
         }
-        "lookup" | "dtfrom" | "dtfromtn" | "find" | "findn" => {
+        "lookup" | "dtfrom" | "dtfromtn" | "find" | "findn" | "project" | "utcproject" => {
             let b = cur.as_ref().ok_or("no current zone")?;
             let z = b.zref().map_err(|e| format!("current zone is not accepted: {:?}", e))?;
             match fam {
                 "lookup" => zones::lookup_line(out, &z, t.int()?),
                 "dtfrom" => zones::dtfrom_line(out, &z, t.int()?, t.int()?),
                 "dtfromtn" => zones::dtfromtn_line(out, &z, t.int()?),
+                "project" => {
+                    let f = t.fields()?;
+                    zones::project_line(out, &z, f, t.ltt()?);
+                }
+                "utcproject" => zones::utcproject_line(out, &z, t.fields()?),
                 "find" => {
                     zones::find_line(out, &z, t.fields()?);
                 }
